@@ -69,7 +69,9 @@ func C17(c *Ctx) {
 	}
 	r.Explanation = "(A2 + origins on go/ssa) the three supply functions: for the enterprise denomination the value returned is bank.GetSupply(d).Sub(stored TotalLocked) and for every other denomination bank.GetSupply(d) unchanged, each return being reachable only on the matching side of d == params.Denom; the paginated variant returns the bank's page itself and rewrites element i in place with c.Sub(stored TotalLocked) only under c.Denom == params.Denom (no append/removal); the EnterpriseSupply record maps Total←supply, Locked←locked, Amount←supply.Sub(locked) for denom params.Denom; " +
 		"(A7) the gRPC SupplyOf/TotalSupply handlers (and the *Overwrite aliases bound to the bank REST paths) return those functions' results for the request's denom/pagination; (A3) the enterprise gateway routes are registered before ModuleBasics' routes so the overwrite paths win; (A7) the CLI supply commands call the enterprise query client. Numeric identities and non-negativity are not decided."
-	r.Rules = []string{"A2.supply-of", "A2.paginated-supply", "A7.enterprise-supply", "A7.query-wiring", "A3.route-order", "A7.gateway-paths", "A7.cli-client"}
+	r.Rules = []string{"A2.supply-of", "A2.paginated-supply", "A7.enterprise-supply", "A7.query-wiring", "A3.route-order", "A7.gateway-paths", "A7.cli-client", "A7.cli-override", "A3.counter-pairs"}
+	// the figure subtracted is the stored total-locked counter: it moves whenever, and by what, an account's locked eFUND moves
+	counterPairs(c)
 	r.Trusted = []string{"bank GetSupply / GetPaginatedTotalSupply return the recorded supply, each denomination once", "bank GetSupply(d) hands back a coin of denomination d", "grpc-gateway mux: first registered handler for a pattern wins"}
 	r.NotDecided = []string{"locked + unlocked == total numerically; non-negativity of supply - locked", "bank pagination itself"}
 	isReqParam := func(e *ir.Expr) bool { return e.Op == "param" }
@@ -565,6 +567,70 @@ func cliClient(c *Ctx) {
 		r.Require(usesEnt && !usesBank, "A7.cli-client", fn(f), w.Pos(f.Pos()), "the node's supply commands query the enterprise supply service, not the bank's", fmt.Sprintf("enterprise client=%v bank client=%v", usesEnt, usesBank))
 	}
 	r.Floor("CLI supply commands", n, 1)
+	cliOverride(c)
+}
+
+// cliOverride (A7.cli-override): the SDK's `bank total` command is taken out of the command tree where it hangs. cobra's
+// Find hands back the receiver itself when nothing matches and RemoveCommand ignores what is not a child, so a command
+// looked up under one node and removed from another stays: the SDK's `total`, which prints the raw bank supply (locked
+// eFUND included), would shadow the enterprise version added beside it. Every RemoveCommand(x) in the node's command
+// package removes an x that was found under the very command it is removed from.
+func cliOverride(c *Ctx) {
+	w, r := c.W, c.R
+	n := 0
+	for _, f := range w.PkgFuncs("cmd/und/cmd") {
+		for _, b := range f.Blocks {
+			for _, in := range b.Instrs {
+				call, ok := in.(*ssa.Call)
+				if !ok || methodNameOf(call) != "RemoveCommand" || call.Common().IsInvoke() || len(call.Common().Args) != 2 {
+					continue
+				}
+				recv := call.Common().Args[0]
+				for _, el := range variadicElems(call.Common().Args[1]) {
+					n++
+					ok := false
+					detail := "the removed command is not the result of a Find"
+					if ex, isEx := el.(*ssa.Extract); isEx && ex.Index == 0 {
+						if fc, isCall := ex.Tuple.(*ssa.Call); isCall && methodNameOf(fc) == "Find" && len(fc.Common().Args) >= 1 {
+							if fc.Common().Args[0] == recv {
+								ok = true
+							} else {
+								detail = "looked up under " + w.ExprOf(fc.Common().Args[0]).String() + " but removed from " + w.ExprOf(recv).String()
+							}
+						}
+					}
+					r.Require(ok, "A7.cli-override", fmt.Sprintf("%s|remove%d", fn(f), n), pos(c, in),
+						"a command replaced by the enterprise version is removed from the command it was found under (a removal elsewhere is ignored by cobra and the SDK's command keeps answering)", detail)
+				}
+			}
+		}
+	}
+	r.Floor("CLI commands removed in favour of the enterprise versions", n, 1)
+}
+
+// variadicElems: the values stored into the backing array of a variadic argument `f(a, b...)` built at the call.
+func variadicElems(v ssa.Value) []ssa.Value {
+	sl, ok := v.(*ssa.Slice)
+	if !ok {
+		return nil
+	}
+	al, ok := sl.X.(*ssa.Alloc)
+	if !ok || al.Referrers() == nil {
+		return nil
+	}
+	var out []ssa.Value
+	for _, ref := range *al.Referrers() {
+		ia, ok := ref.(*ssa.IndexAddr)
+		if !ok || ia.Referrers() == nil {
+			continue
+		}
+		for _, r2 := range *ia.Referrers() {
+			if st, ok := r2.(*ssa.Store); ok && st.Addr == ssa.Value(ia) {
+				out = append(out, st.Val)
+			}
+		}
+	}
+	return out
 }
 
 // ---------------------------------------------------------------------------------------
@@ -572,7 +638,7 @@ func cliClient(c *Ctx) {
 func C19(c *Ctx) {
 	w, r := c.W, c.R
 	r.Explanation = "(A9) no binary floating point on the conversion path: from the conversion function no float operation/conversion, strconv.ParseFloat or math/big.Float method is reachable; (A5, exact go/constant arithmetic) UndPow == 10^9, UndPow x NundPow == 1, the printed precision is 9 == log10(UndPow); the fund branch multiplies by the rational UndPow/1 and the nund branch by 1/UndPow, each guarded by the matching from-denomination comparison, and the switch covers exactly {fund, nund}. A necessary condition for exactness (binary floats cannot represent 10^-9 multiples); exactness of math/big.Rat is trusted."
-	r.Rules = []string{"A9.no-float", "A9.no-fixed-width", "A5.constants", "A2.branch-scaling", "A7.cli-amount"}
+	r.Rules = []string{"A9.no-float", "A9.no-fixed-width", "A5.constants", "A2.branch-scaling", "A7.cli-amount", "A2.accepts-zero"}
 	r.Trusted = []string{"math/big.Rat arithmetic is exact", "Rat.FloatString rounds correctly"}
 	r.NotDecided = []string{"round-trip equality as behaviour", "inputs with more than nine fractional digits (rounded)"}
 	f := w.LookupFunc("types.ConvertUndDenomination")
@@ -628,6 +694,7 @@ func C19(c *Ctx) {
 		}
 	}
 	r.Require(used, "A9.no-float", "cli-uses", w.Pos(f.Pos()), "the node's convert command calls this conversion function", "no caller in cmd/und/cmd")
+	acceptsZero(c, f)
 
 	// constants
 	pk := w.Pkg("types")
@@ -824,6 +891,31 @@ func C19(c *Ctx) {
 		round := w.FlatMustPass(ed.From, func(in ssa.Instruction) bool { return in == site }, nil)
 		r.Require(len(round) == 0, "A7.cli-amount", fn(ed.From)+"|must-convert", pos(c, ed.Site), "every successful run of the convert command goes through the conversion function", fmt.Sprintf("%d successful return(s) do not pass the conversion call", len(round)))
 		r.Require(okAmt, "A7.cli-amount", fn(ed.From), pos(c, ed.Site), "the convert command passes the amount argument to the conversion as typed (at most surrounding space and non-numeric separators removed: no slicing, no re-formatting through a number type)", "amount argument: "+amt.String())
+		// ... and the command itself does not screen the amount through a machine-width parse (an amount of 2^64 nund or more
+		// is a non-negative decimal string like any other)
+		for g := range w.Reachable([]*ssa.Function{ed.From}) {
+			if g == f || !strings.HasPrefix(fn(g), "cmd/und/cmd.") {
+				continue
+			}
+			for _, b := range g.Blocks {
+				for _, in := range b.Instrs {
+					pc, ok := in.(ssa.CallInstruction)
+					if !ok {
+						continue
+					}
+					sc := pc.Common().StaticCallee()
+					if sc == nil || sc.Pkg == nil || sc.Pkg.Pkg.Path() != "strconv" {
+						continue
+					}
+					switch sc.Name() {
+					case "ParseInt", "ParseUint", "Atoi":
+						// (a ParseFloat used as a syntax screen only refuses what overflows a float64, beyond 10^308; the value
+						// handed to the conversion is judged by A7.cli-amount)
+						r.Bad("A9.no-fixed-width", fn(g)+"|"+sc.Name(), pos(c, in), "amounts are parsed with arbitrary precision (a 64-bit parse restricts or wraps large amounts)", "the convert command calls "+sc.String())
+					}
+				}
+			}
+		}
 	}
 	r.Floor("convert command call sites", ncli, 1)
 }
@@ -864,4 +956,125 @@ func sameAmountText(e *ir.Expr) bool {
 		}
 	}
 	return true
+}
+
+// acceptsZero (A2.accepts-zero): the conversion is defined for every non-negative amount, zero included. Wherever the
+// conversion path branches on the sign of the amount (x.Sign() compared with 0, x.IsZero(), x.IsPositive(), x.IsNegative()), the side that an amount of
+// exactly zero takes can still reach a successful return: a guard written `Sign() <= 0` where `< 0` was meant refuses "0",
+// "0.0" and "0.000000000", which breaks the round trip 0nund -> 0.000000000fund -> nund. A sign test is not required.
+func acceptsZero(c *Ctx, f *ssa.Function) {
+	w, r := c.W, c.R
+	n := 0
+	var gs []*ssa.Function
+	for g := range w.Reachable([]*ssa.Function{f}) {
+		gs = append(gs, g)
+	}
+	sortFuncs(gs)
+	for _, g := range gs {
+		if ir.ErrIndex(g) < 0 {
+			continue
+		}
+		succ := w.SuccessReturns(g)
+		for _, b := range g.Blocks {
+			if len(b.Instrs) == 0 {
+				continue
+			}
+			iff, ok := b.Instrs[len(b.Instrs)-1].(*ssa.If)
+			if !ok || len(b.Succs) != 2 {
+				continue
+			}
+			cond, neg := iff.Cond, false
+			for {
+				u, ok := cond.(*ssa.UnOp)
+				if !ok || u.Op != token.NOT {
+					break
+				}
+				cond, neg = u.X, !neg
+			}
+			mathCallee := func(v ssa.Value) string {
+				call, ok := v.(*ssa.Call)
+				if !ok {
+					return ""
+				}
+				sc := call.Common().StaticCallee()
+				if sc == nil || sc.Pkg == nil || sc.Pkg.Pkg.Path() != "math/big" && !strings.HasSuffix(sc.Pkg.Pkg.Path(), "cosmossdk.io/math") {
+					return ""
+				}
+				return sc.Name()
+			}
+			judge := func(side int, at ssa.Instruction, text string) {
+				n++
+				can := false
+				for _, ret := range succ {
+					if ret.Block() == b.Succs[side] || ir.ReachesFrom(g, b.Succs[side], 0, ret, ir.Cut{}) {
+						can = true
+					}
+				}
+				r.Require(can, "A2.accepts-zero", fmt.Sprintf("%s|sign-test%d", fn(g), n), pos(c, at),
+					"an amount of exactly zero is converted like any other non-negative amount: the side of a sign test that zero takes can reach a successful return",
+					"zero takes the "+map[int]string{0: "true", 1: "false"}[side]+" side of "+text+", from which only failing returns are reachable")
+			}
+			if name := mathCallee(cond); name != "" {
+				// x.IsZero(), x.IsPositive(), x.IsNegative() used as the condition itself
+				var holds, known bool
+				switch name {
+				case "IsZero":
+					holds, known = true, true
+				case "IsPositive", "IsNegative":
+					holds, known = false, true
+				}
+				if known {
+					if neg {
+						holds = !holds
+					}
+					side := 1
+					if holds {
+						side = 0
+					}
+					judge(side, cond.(*ssa.Call), name+"()")
+				}
+				continue
+			}
+			bo, ok := cond.(*ssa.BinOp)
+			if !ok {
+				continue
+			}
+			isSign := func(v ssa.Value) bool { return mathCallee(v) == "Sign" }
+			isZero := func(v ssa.Value) bool {
+				cst, ok := v.(*ssa.Const)
+				return ok && cst.Value != nil && cst.Value.String() == "0"
+			}
+			var signLeft bool
+			switch {
+			case isSign(bo.X) && isZero(bo.Y):
+				signLeft = true
+			case isSign(bo.Y) && isZero(bo.X):
+				signLeft = false
+			default:
+				continue
+			}
+			// the side an amount with sign 0 takes
+			var holds bool
+			switch bo.Op {
+			case token.EQL, token.LEQ, token.GEQ:
+				holds = true
+			case token.NEQ, token.LSS, token.GTR:
+				holds = false
+			default:
+				continue
+			}
+			_ = signLeft // 0 op 0 is symmetric
+			if neg {
+				holds = !holds
+			}
+			side := 1
+			if holds {
+				side = 0
+			}
+			judge(side, bo, bo.String())
+		}
+	}
+	if n == 0 {
+		r.OK("A2.accepts-zero", fn(f)+"|none", w.Pos(f.Pos()), "the conversion path has no test on the sign of the amount (parsing alone decides what is refused)")
+	}
 }
